@@ -32,13 +32,13 @@ def bufPot (b : Buf) : Nat := bufBytes b + 2 * b.length
 def chanPot (c : Chan) : Nat := sendPot c + bufPot c.recvBuf
 
 theorem flushData_pot : ∀ (fuel : Nat) (c c' : Chan) (ms : List Msg),
-    flushData fuel c = some (c', ms) → 0 < c.sendPktsize →
+    flushData fuel c = some (c', ms) →
     4 * bufBytes c'.sendBuf + 3 * c'.sendBuf.length + linkPot ms ≤ 4 * bufBytes c.sendBuf + 3 * c.sendBuf.length := by
   intro fuel
   induction fuel with
-  | zero => intro c c' ms h _; simp [flushData] at h
+  | zero => intro c c' ms h; simp [flushData] at h
   | succ n ih =>
-    intro c c' ms h hp
+    intro c c' ms h
     unfold flushData at h
     split at h
     · simp only [Option.some.injEq, Prod.mk.injEq] at h
@@ -50,15 +50,20 @@ theorem flushData_pot : ∀ (fuel : Nat) (c c' : Chan) (ms : List Msg),
         obtain ⟨rfl, rfl⟩ := h
         simp [linkPot]
       · rename_i hw
+        split at h
+        · simp only [Option.some.injEq, Prod.mk.injEq] at h
+          obtain ⟨rfl, rfl⟩ := h
+          simp [linkPot]
+        rename_i hz
         simp only at h
         split at h
         · simp at h
         · rename_i c2 ms2 hrec
           simp only [Option.some.injEq, Prod.mk.injEq] at h
           obtain ⟨rfl, rfl⟩ := h
-          have h1 := ih _ _ _ hrec hp
+          have h1 := ih _ _ _ hrec
           simp only at h1
-          have hps : 0 < pktSize c.sendWindow c.sendPktsize := by unfold pktSize; omega
+          have hps : 0 < pktSize c.sendWindow c.sendPktsize := by omega
           rw [hb, linkPot_append]
           have hsp : 4 * bufBytes (splitHead (pktSize c.sendWindow c.sendPktsize) buf dt rest).2 +
               3 * (splitHead (pktSize c.sendWindow c.sendPktsize) buf dt rest).2.length +
@@ -78,7 +83,7 @@ theorem flushData_pot : ∀ (fuel : Nat) (c c' : Chan) (ms : List Msg),
 
 theorem sStage_le_two (c : Chan) : sStage c ≤ 2 := by unfold sStage; cases c.sendState <;> simp
 
-theorem flushSend_pot (c c' : Chan) (ms : List Msg) (hp : 0 < c.sendPktsize)
+theorem flushSend_pot (c c' : Chan) (ms : List Msg)
     (h : flushSend c = some (c', ms)) : sendPot c' + linkPot ms ≤ sendPot c := by
   unfold flushSend at h
   split at h
@@ -86,7 +91,7 @@ theorem flushSend_pot (c c' : Chan) (ms : List Msg) (hp : 0 < c.sendPktsize)
   · rename_i c1 ms1 hfd
     simp only [Option.some.injEq, Prod.mk.injEq] at h
     obtain ⟨rfl, rfl⟩ := h
-    have h1 := flushData_pot _ _ _ _ hfd hp
+    have h1 := flushData_pot _ _ _ _ hfd
     obtain ⟨hfr, _⟩ := flushData_spec _ _ _ _ hfd
     have hst1 : c1.sendState = c.sendState := by rw [hfr]
     have hco1 : c1.sendChanOpen = c.sendChanOpen := by rw [hfr]
@@ -148,7 +153,7 @@ theorem drainRecv_pot : ∀ (buf : Buf) (c : Chan),
       simp only [bufPot, bufBytes, List.length_cons] at ih ⊢
       omega
 
-theorem writeEof_pot (c c' : Chan) (ms : List Msg) (hw : WFs c) (hp : 0 < c.sendPktsize)
+theorem writeEof_pot (c c' : Chan) (ms : List Msg) (hw : WFs c)
     (h : writeEof c = some (c', ms)) : chanPot c' + linkPot ms ≤ chanPot c := by
   unfold writeEof at h
   split at h
@@ -156,7 +161,7 @@ theorem writeEof_pot (c c' : Chan) (ms : List Msg) (hw : WFs c) (hp : 0 < c.send
     have hw0 : WFs { c with sendState := .eofPending } :=
       ⟨by simp only [ne_eq, reduceCtorEq, not_false_eq_true, iff_true]; exact hw.chanOpen.mpr (by simp [hs]),
        by simp⟩
-    have h1 := flushSend_pot _ _ _ (by exact hp) h
+    have h1 := flushSend_pot _ _ _ h
     have sp := flushSend_spec _ _ _ hw0 h
     have h2 : sendPot { c with sendState := .eofPending } = sendPot c := by simp [sendPot, sStage, hs]
     unfold chanPot
@@ -168,7 +173,7 @@ theorem writeEof_pot (c c' : Chan) (ms : List Msg) (hw : WFs c) (hp : 0 < c.send
     obtain ⟨rfl, rfl⟩ := h
     simp [linkPot]
 
-theorem flushRecv_pot (c c' : Chan) (ms : List Msg) (os : List Out) (hw : WFs c) (hp : 0 < c.sendPktsize)
+theorem flushRecv_pot (c c' : Chan) (ms : List Msg) (os : List Out) (hw : WFs c)
     (h : flushRecv c = some (c', ms, os)) : chanPot c' + linkPot ms ≤ chanPot c := by
   unfold flushRecv at h
   have hd := drainRecv_spec c.recvBuf c
@@ -199,7 +204,7 @@ theorem flushRecv_pot (c c' : Chan) (ms : List Msg) (os : List Out) (hw : WFs c)
             obtain ⟨rfl, rfl, rfl⟩ := hes
             have hw2 : WFs { { c1 with recvBuf := left } with recvState := .eof } :=
               ⟨e1.wfs.chanOpen, e1.wfs.drained⟩
-            have := writeEof_pot _ _ _ hw2 (by show 0 < c1.sendPktsize; rw [hd.same.sendPktsize]; exact hp) hwe
+            have := writeEof_pot _ _ _ hw2 hwe
             exact this
         · simp only [Option.some.injEq, Prod.mk.injEq] at hes
           obtain ⟨rfl, rfl, rfl⟩ := hes
@@ -215,7 +220,7 @@ theorem flushRecv_pot (c c' : Chan) (ms : List Msg) (os : List Out) (hw : WFs c)
 /-- processing a message strictly decreases (endpoint potential + what it puts on the wire) below
     (endpoint potential + the message consumed) -/
 theorem recv_potential (c c' : Chan) (m : Msg) (ms : List Msg) (os : List Out) (hw : WF c)
-    (hp : 0 < c.sendPktsize) (h : step c (.recv m) = .ok (c', ms, os)) :
+    (h : step c (.recv m) = .ok (c', ms, os)) :
     chanPot c' + linkPot ms < chanPot c + msgWeight m := by
   cases m with
   | data dt bs =>
@@ -243,7 +248,7 @@ theorem recv_potential (c c' : Chan) (m : Msg) (ms : List Msg) (os : List Out) (
   | adjust n =>
     obtain ⟨_, h1, _⟩ := step_recv_adjust_ok h
     have hw0 : WFs { c with sendWindow := c.sendWindow + n } := ⟨hw.s.chanOpen, hw.s.drained⟩
-    have hpot := flushSend_pot _ _ _ (by exact hp) h1
+    have hpot := flushSend_pot _ _ _ h1
     have sp := flushSend_spec _ _ _ hw0 h1
     have h2 : sendPot { c with sendWindow := c.sendWindow + n } = sendPot c := rfl
     unfold chanPot
@@ -253,15 +258,15 @@ theorem recv_potential (c c' : Chan) (m : Msg) (ms : List Msg) (os : List Out) (
   | eof =>
     obtain ⟨_, h1⟩ := step_recv_eof_ok h
     have hw0 : WFs { c with recvState := .eofPending } := ⟨hw.s.chanOpen, hw.s.drained⟩
-    have hpot := flushRecv_pot _ _ _ _ hw0 (by exact hp) h1
+    have hpot := flushRecv_pot _ _ _ _ hw0 h1
     have h2 : chanPot { c with recvState := .eofPending } = chanPot c := rfl
     simp only [msgWeight]; omega
   | close =>
     obtain ⟨_, ms1, h1, rfl⟩ := step_recv_close_ok h
     obtain ⟨hsr, hb, _, hst, _, _, _, _, hwf⟩ := closeSend_spec c hw.s
-    have hw0 : WFs { (closeSend c).1 with recvState := .closePending } := ⟨hwf.chanOpen, hwf.drained⟩
-    have hpot := flushRecv_pot _ _ _ _ hw0 (by show 0 < (closeSend c).1.sendPktsize; rw [hsr.sendPktsize]; exact hp) h1
-    have hcs : chanPot { (closeSend c).1 with recvState := .closePending } + linkPot (closeSend c).2 ≤ chanPot c := by
+    have hw0 : WFs { (closeSend c).1 with recvEofPending := decide (c.recvState = .eofPending), recvState := .closePending } := ⟨hwf.chanOpen, hwf.drained⟩
+    have hpot := flushRecv_pot _ _ _ _ hw0 h1
+    have hcs : chanPot { (closeSend c).1 with recvEofPending := decide (c.recvState = .eofPending), recvState := .closePending } + linkPot (closeSend c).2 ≤ chanPot c := by
       unfold chanPot
       show sendPot (closeSend c).1 + bufPot (closeSend c).1.recvBuf + linkPot (closeSend c).2 ≤ _
       rw [hsr.recvBuf]
@@ -288,7 +293,7 @@ def sysPot (s : Sys) : Nat :=
 
 /-- every delivery of a message strictly decreases the potential -/
 theorem deliver_decreases (s s' : Sys) (z : Side) (m : Msg) (rest : List Msg) (hinv : Inv s)
-    (hp : ∀ x, 0 < (s.ep x).sendPktsize) (hl : s.link z = m :: rest) (h : s.step (.deliver z) = .ok s') :
+    (hl : s.link z = m :: rest) (h : s.step (.deliver z) = .ok s') :
     sysPot s' < sysPot s := by
   simp only [Sys.step, hl] at h
   split at h
@@ -297,7 +302,7 @@ theorem deliver_decreases (s s' : Sys) (z : Side) (m : Msg) (rest : List Msg) (h
     simp only [Except.ok.injEq] at h
     subst h
     obtain ⟨c', ms, os⟩ := r
-    have hpot := recv_potential _ _ _ _ _ (hinv.wf z) (hp z) hr
+    have hpot := recv_potential _ _ _ _ _ (hinv.wf z) hr
     cases z <;>
     · simp only [sysPot, Sys.apply, upd, Side.other, hl, linkPot] at hpot ⊢
       simp only [reduceCtorEq, if_false, if_true, linkPot_append]
@@ -316,10 +321,11 @@ structure Reading (s : Sys) (y : Side) : Prop where
 theorem adjustSum_pos_ne_nil {l : List Msg} (h : 0 < adjustSum l) : l ≠ [] := by
   intro hl; subst hl; simp [adjustSum] at h
 
-/-- With undelivered data, a reader that reads, and a receive window that is not zero, some message is in
+/-- With undelivered data, a reader that reads, a receive window and a peer maximum packet size that are not zero
+    (with packet size 0 the peer forbids sending anything: since fix de5c08f the data then simply waits), some message is in
     flight: a delivery step is enabled (and by `no_fatal` it succeeds, by `deliver_decreases` it makes progress). -/
 theorem no_deadlock (s : Sys) (x : Side) (hinv : Inv s) (hu : 0 < undelivered s x)
-    (hr : Reading s x.other) (hinit : 0 < (s.ep x.other).initWindow) :
+    (hr : Reading s x.other) (hinit : 0 < (s.ep x.other).initWindow) (hp : 0 < (s.ep x).sendPktsize) :
     s.link x.other ≠ [] ∨ s.link x ≠ [] := by
   by_cases hl : s.link x.other = []
   · right
@@ -343,9 +349,10 @@ theorem no_deadlock (s : Sys) (x : Side) (hinv : Inv s) (hu : 0 < undelivered s 
     simp only [dataOf, bufBytes, Nat.add_zero, Nat.zero_add] at hu heq
     have hsb : (s.ep x).sendBuf ≠ [] := by intro h; rw [h] at hu; simp [bufBytes] at hu
     have hw : (s.ep x).sendWindow = 0 := by
-      rcases (hinv.wf x).exit with h | h
+      rcases (hinv.wf x).exit with h | h | h
       · exact absurd h hsb
       · exact h
+      · omega
     rw [hw] at heq
     apply adjustSum_pos_ne_nil
     push_cast at heq; omega
@@ -353,13 +360,13 @@ theorem no_deadlock (s : Sys) (x : Side) (hinv : Inv s) (hu : 0 < undelivered s 
 
 /-- nothing in flight, the reader reads: everything written has been delivered -/
 theorem quiescent_delivered (s : Sys) (x : Side) (hinv : Inv s) (hla : s.link .a = []) (hlb : s.link .b = [])
-    (hr : Reading s x.other) (hinit : 0 < (s.ep x.other).initWindow) :
+    (hr : Reading s x.other) (hinit : 0 < (s.ep x.other).initWindow) (hp : 0 < (s.ep x).sendPktsize) :
     tag (dataOuts (s.hist x.other).dl) = tag (s.hist x).wr := by
   have hl : ∀ z, s.link z = [] := fun z => by cases z <;> assumption
   have hu : undelivered s x = 0 := by
     rcases Nat.eq_zero_or_pos (undelivered s x) with h | h
     · exact h
-    · rcases no_deadlock s x hinv h hr hinit with h1 | h1
+    · rcases no_deadlock s x hinv h hr hinit hp with h1 | h1
       · exact absurd (hl _) h1
       · exact absurd (hl _) h1
   have hst := (hinv.dir x).stream hr.open_
@@ -435,7 +442,7 @@ theorem step_recv_keep (c c' : Chan) (m : Msg) (ms : List Msg) (os : List Out) (
   | close =>
     obtain ⟨_, ms1, h1, _⟩ := step_recv_close_ok h
     obtain ⟨hsr, _, _, _, _, _, _, _, hwf⟩ := closeSend_spec c hw.s
-    have hw0 : WFs { (closeSend c).1 with recvState := .closePending } := ⟨hwf.chanOpen, hwf.drained⟩
+    have hw0 : WFs { (closeSend c).1 with recvEofPending := decide (c.recvState = .eofPending), recvState := .closePending } := ⟨hwf.chanOpen, hwf.drained⟩
     obtain ⟨h2, h3⟩ := flushRecv_keep _ _ _ _ hw0 (by show (closeSend c).1.pauseAfter = none; rw [hsr.pauseAfter]; exact hpa) h1
     exact ⟨h3.trans (hsr.recvPaused.trans hp), h2⟩
 
@@ -469,18 +476,18 @@ theorem deliver_keeps_reading (s s' : Sys) (z y : Side) (hinv : Inv s) (hr : Rea
         · simpa [Sys.apply] using hcfg.sendPktsize
         · simp [Sys.apply]
 
-/-- **Liveness.**  From every reachable state of two honest endpoints (positive maximum packet sizes), if the
-    application at the receiving side keeps reading (not paused, will not pause, has not closed) and advertised
+/-- **Liveness.**  From every reachable state of two honest endpoints, if the receiver advertised a non-zero
+    maximum packet size (with 0 it forbids all data), the application at the receiving side keeps reading (not paused, will not pause, has not closed) and advertised
     a non-zero window, then delivering the messages in flight — in ANY order, each delivery strictly decreasing
     `sysPot` (`deliver_decreases`) — ends in a state where every byte written so far has reached it. -/
 theorem all_data_eventually_delivered : ∀ (n : Nat) (s : Sys) (x : Side), sysPot s ≤ n → Inv s → TInv s →
-    Reading s x.other → 0 < (s.ep x.other).initWindow →
+    Reading s x.other → 0 < (s.ep x.other).initWindow → 0 < (s.ep x).sendPktsize →
     ∃ evs s', (∀ e ∈ evs, ∃ z, e = Event.deliver z) ∧ s.run evs = .ok s' ∧
       tag (dataOuts (s'.hist x.other).dl) = tag (s'.hist x).wr := by
   intro n
   induction n with
   | zero =>
-    intro s x hn hinv _ hr hinit
+    intro s x hn hinv _ hr hinit hp
     have h0 : sysPot s = 0 := by omega
     have hla : s.link .a = [] := by
       cases h : s.link .a with
@@ -498,11 +505,11 @@ theorem all_data_eventually_delivered : ∀ (n : Nat) (s : Sys) (x : Side), sysP
         unfold sysPot at h0; rw [h] at h0; simp only [linkPot] at h0
         have : 0 < msgWeight m := by cases m <;> simp [msgWeight]
         omega
-    exact ⟨[], s, by simp, rfl, quiescent_delivered s x hinv hla hlb hr hinit⟩
+    exact ⟨[], s, by simp, rfl, quiescent_delivered s x hinv hla hlb hr hinit hp⟩
   | succ k ih =>
-    intro s x hn hinv ht hr hinit
+    intro s x hn hinv ht hr hinit hp
     by_cases hq : s.link .a = [] ∧ s.link .b = []
-    · exact ⟨[], s, by simp, rfl, quiescent_delivered s x hinv hq.1 hq.2 hr hinit⟩
+    · exact ⟨[], s, by simp, rfl, quiescent_delivered s x hinv hq.1 hq.2 hr hinit hp⟩
     · have hz : ∃ z m rest, s.link z = m :: rest := by
         cases ha : s.link .a with
         | cons m rest => exact ⟨.a, m, rest, ha⟩
@@ -512,10 +519,10 @@ theorem all_data_eventually_delivered : ∀ (n : Nat) (s : Sys) (x : Side), sysP
           | nil => exact absurd ⟨ha, hb⟩ hq
       obtain ⟨z, m, rest, hl⟩ := hz
       obtain ⟨s1, hs1⟩ := no_fatal s hinv ht (.deliver z)
-      have hdec := deliver_decreases s s1 z m rest hinv ht.pkt hl hs1
-      obtain ⟨hr1, hi1, _⟩ := deliver_keeps_reading s s1 z x.other hinv hr hs1
+      have hdec := deliver_decreases s s1 z m rest hinv hl hs1
+      obtain ⟨hr1, hi1, hp1⟩ := deliver_keeps_reading s s1 z x.other hinv hr hs1
       obtain ⟨evs, s', hev, hrun, hfin⟩ := ih s1 x (by omega) (inv_step s s1 _ hinv hs1) (tinv_step s s1 _ hinv ht hs1)
-        hr1 (by rw [hi1]; exact hinit)
+        hr1 (by rw [hi1]; exact hinit) (by rw [hp1]; exact hp)
       refine ⟨.deliver z :: evs, s', ?_, ?_, hfin⟩
       · intro e he
         rcases List.mem_cons.mp he with rfl | he
